@@ -55,6 +55,18 @@ CHECKS = {
              "print are stubs. Real concurrent access (alias threads, SIGHUP handler) is outside. One defect repaired (fix: commit).",
         ref="DESIGN.md 4 C20",
     ),
+    "C16": dict(
+        text="One inductive step of cd, pushd, popd, dirs (every argument form: none, directory spellings incl. '..', symlink, file, "
+             "missing, unsearchable, -, +N/-N, -n, malformed) and the pushd;popd / with_pushd pair, executed symbolically on the real "
+             "dirstack.py from an arbitrary valid state (stack of 0..3 entries, $PWD in step with the model cwd) over a model directory "
+             "tree whose chdir resolves '..' physically like the kernel. After the step $PWD must name the model's cwd, $OLDPWD the "
+             "previous one, failures leave everything unchanged and report an error, the stack obeys $DIRSTACK_SIZE and the documented "
+             "rotation/removal rule ($PUSHD_MINUS aware).",
+        note="Bounds: 5 places, 10 target spellings, N in 0..4, stack <=3, $DIRSTACK_SIZE 0..5. The os module seen by dirstack.py is a "
+             "model file system (contract listed in evidence); BaseShell._fix_cwd, the path-literal cd() context manager and Windows UNC "
+             "handling are outside. Two known findings are listed in known_findings.jsonl.",
+        ref="DESIGN.md 4 C16",
+    ),
 }
 
 NA = {
